@@ -14,9 +14,10 @@ from .calls import CallMixin
 from .builtins_model import BuiltinMixin
 from .heapmodel import HeapMixin
 from .specmode import SpecMixin
+from .ghost import GhostMixin
 
 
-class Interp(ExprMixin, StmtMixin, CallMixin, BuiltinMixin, HeapMixin, SpecMixin):
+class Interp(ExprMixin, StmtMixin, CallMixin, BuiltinMixin, HeapMixin, SpecMixin, GhostMixin):
     def __init__(self, program, ctl, timeout_ms=2000, spec_env=None):
         self.P = program
         self.ctl = ctl
@@ -43,6 +44,7 @@ class Interp(ExprMixin, StmtMixin, CallMixin, BuiltinMixin, HeapMixin, SpecMixin
         self.call_depth = 0
         self.trace = []             # human-readable decision labels
         self.events = []            # ghost trace of external effects (encoder calls...)
+        self.init_ghost()
 
     # ------------------------------------------------------------------
     # fresh symbols
